@@ -117,6 +117,10 @@ class Registry:
 
         self.spec_natives["keys_list"] = _keys_list
         self.spec_natives["idx_of"] = _idx_of
+        from .strings import uf as _uf
+
+        self.spec_natives["is_ascii"] = lambda it, a, k: VBool(_uf("is_ascii", STR, BOOL)((a[0].val if isinstance(a[0], VOpt) else a[0]).t))
+        self.spec_natives["effect_names"] = lambda it, a, k: VList(items=[VStr(z3.StringVal(e[0])) for e in it.path.effects])
         self.spec_natives["implies"] = lambda it, a, k: VBool(z3.Implies(it.truthy(a[0]), it.truthy(a[1])))
         from . import models  # noqa: F401  registers externals
 
